@@ -5,7 +5,7 @@ CONSTANTS
   MaxTime = 4
   TickSteps = {1, 2}
   MaxClk = 6
-  ExpireCmp = ">"
+  FixOnRefresh = FALSE
 VIEW view
 CONSTRAINT Bounded
 INVARIANTS TypeOK HeapOrdered RootOldest OnePerAddr ClosedIffGone PostSweepExact
